@@ -57,7 +57,7 @@ def has_common_super(a, b):
 
 UNIVERSE = [
     INT, STR, ("List", INT), ("List", STR), ("Option", INT), ("Option", ("List", INT)),
-    ("Tuple", INT, STR), ("Tuple", INT, INT),
+    ("Tuple", INT, STR), ("Tuple", INT, INT), ("Tuple", INT, STR, INT), ("Tuple", INT, STR, STR),
     ("Fun", (INT,), INT), ("Fun", (STR,), INT), ("Fun", (INT,), STR), ("Fun", (INT, INT), INT),
     ("List", ("Fun", (INT,), INT)), ("Fun", (("Fun", (INT,), INT),), INT),
 ]
@@ -124,6 +124,14 @@ def c15_matrix():
         items.append({"what": "if/else chain %s, %s, %s with an unknown middle branch" % (a, mk % "p.x", b),
                       "src": "public fun f(p, c: Bool) {\n  let x = if c { %s } else { %s }\n  let y = if c { x } else { %s }\n  y\n}\n" % (a, mk % "p.x", b),
                       "expect_error": True})
+    # three or more elements whose widest one is in the middle: the combined type must cover it, and elements that
+    # only pairwise-with-the-first agree must still be reported
+    for (lit, good, bad) in (("[None, Some(1), None]", "List<Option<Int>>", "List<Option<NoValue>>"), ("[[], [1], []]", "List<List<Int>>", "List<List<NoValue>>"),
+                             ("Dict[\"a\" => [], \"b\" => [1], \"c\" => []]", "Dict<List<Int>>", "Dict<List<NoValue>>"), ("[None, None, Some(\"s\"), None]", "List<Option<String>>", "List<Option<NoValue>>")):
+        items.append({"what": "%s : %s" % (lit, good), "src": "public fun f(): %s {\n  %s\n}\n" % (good, lit), "expect_error": False})
+        items.append({"what": "%s : %s" % (lit, bad), "src": "public fun f(): %s {\n  %s\n}\n" % (bad, lit), "expect_error": True})
+    for lit in ("[[], [1], [\"a\"]]", "[None, Some(1), Some(\"a\")]", "[[], [1], [], [\"a\"]]"):
+        items.append({"what": "%s has no common element type" % lit, "src": "public fun f() {\n  let xs = %s\n  xs\n}\n" % lit, "expect_error": True})
     # the combined type must be a supertype of EVERY element: if [a, closure] is accepted, then what can
     # be passed to an element of the list is at most what `a` accepts
     for (pa, ra) in ((INT, INT), (STR, INT), (("List", INT), STR)):
